@@ -68,8 +68,16 @@ def _apply(f, op, model, out_len, ref_eval):
     """apply one operation to the real object and to the model; return list of (oracle, detail)"""
     bad = []
 
-    def expect_rows(got, pts):
-        got = np.asarray(got)
+    def consume(arr):
+        """the returned array belongs to the caller, who may go on computing with it in place (e.g. `values *= weights`): the harness
+        overwrites every returned array after it has been compared - a later evaluation must not be affected"""
+        if isinstance(arr, np.ndarray) and arr.flags.writeable and arr.size:
+            arr *= 0.0
+            arr -= 7.0
+
+    def expect_rows(got_raw, pts):
+        got = np.array(got_raw)
+        consume(got_raw)
         if got.shape != (len(pts), out_len):
             bad.append(("batch_shape", "%s returned shape %r, expected %r" % (op, got.shape, (len(pts), out_len))))
             return
@@ -77,8 +85,9 @@ def _apply(f, op, model, out_len, ref_eval):
         if not np.allclose(got, want, rtol=1e-13, atol=1e-15):
             bad.append(("batch_values", "%s returned %r, scalar eval gives %r" % (op, got.tolist(), want.tolist())))
 
-    def expect_single(got, p):
-        got = np.asarray(got)
+    def expect_single(got_raw, p):
+        got = np.array(got_raw)
+        consume(got_raw)
         if got.shape != (out_len,):
             bad.append(("single_shape", "%s returned shape %r, expected %r" % (op, got.shape, (out_len,))))
             return
@@ -254,6 +263,13 @@ def _class_menu():
     m["FunctionExpVar"] = (lambda d: (F.FunctionExpVar(), [[]] * d, d, 1), "nonneg")
     m["FunctionCompose"] = (lambda d: (F.FunctionCompose([(F.FunctionLinear(co[:d]), 2.0), (F.GenzGaussian(mid[:d], [3.0, 2.0, 1.0][:d]), -0.5)]),
                                        [[mid[k]] for k in range(d)], None, 1), "any")
+    # compositions whose FIRST / LAST component clips the box at a discontinuity (every component must see the box the caller passed)
+    m["FunctionCompose_discontinuous_first"] = (lambda d: (F.FunctionCompose([(F.GenzDiscontinious(pos[:d], [0.5, 0.75, 0.3][:d]), 1.0), (F.GenzGaussian(mid[:d], [3.0, 2.0, 1.0][:d]), -0.5),
+                                                                              (F.FunctionLinear(co[:d]), 2.0)]),
+                                                           [sorted({[0.5, 0.75, 0.3][k], mid[k]}) for k in range(d)], None, 1), "any")
+    m["FunctionCompose_discontinuous_last"] = (lambda d: (F.FunctionCompose([(F.GenzGaussian(mid[:d], [3.0, 2.0, 1.0][:d]), -0.5), (F.FunctionLinear(co[:d]), 2.0),
+                                                                             (F.GenzDiscontinious(pos[:d], [0.5, 0.75, 0.3][:d]), 1.0)]),
+                                                          [sorted({[0.5, 0.75, 0.3][k], mid[k]}) for k in range(d)], None, 1), "any")
     m["FunctionShift"] = (lambda d: (F.FunctionShift(F.GenzGaussian(mid[:d], [3.0, 2.0, 1.0][:d]), lambda c: [x + 0.25 for x in c]),
                                      [[mid[k] - 0.25] for k in range(d)], None, 1), "any")
     m["FunctionG"] = (lambda d: (F.FunctionG(d), [[0.5]] * d, None, 1), "unit")
@@ -306,7 +322,12 @@ def _int_case(c):
         return [], ("not_offered",)
     f, breaks, power, out_len = made
     try:
-        val = f.getAnalyticSolutionIntegral(list(start), list(end))
+        if c.get("box_type") == "ndarray":      # the box as float64 arrays (what the combination classes pass)
+            val = f.getAnalyticSolutionIntegral(np.array(start, dtype=float), np.array(end, dtype=float))
+        elif c.get("box_type") == "tuple":
+            val = f.getAnalyticSolutionIntegral(tuple(start), tuple(end))
+        else:
+            val = f.getAnalyticSolutionIntegral(list(start), list(end))
     except AssertionError:
         return [], ("refused",)            # the class refuses boxes outside its domain
     if val is None:
@@ -350,6 +371,10 @@ def cases(tier):
                 continue
             for s, e in _boxes(d, kind, tier):
                 out.append({"config": {"kind": "int", "class": name, "d": d, "start": s, "end": e}})
+            if d <= 2:
+                for bt in ("ndarray", "tuple"):
+                    for s, e in _boxes(d, kind, "quick"):
+                        out.append({"config": {"kind": "int", "class": name, "d": d, "start": s, "end": e, "box_type": bt}})
     return out
 
 
